@@ -1,0 +1,23 @@
+//go:build verif
+
+package ringbuffer
+
+// VerifHook, when set, receives one event per critical section of the ring
+// buffer. It is invoked while the ring's mutex is held, after the state change.
+// (verification instrumentation, build tag verif)
+var VerifHook func(r *RingBuffer, ev string, data any)
+
+// VerifYield, when set, is invoked at critical-section boundaries, outside the mutex.
+var VerifYield func(point string)
+
+func (r *RingBuffer) verifEvent(ev string, data any) {
+	if h := VerifHook; h != nil {
+		h(r, ev, data)
+	}
+}
+
+func verifYield(point string) {
+	if h := VerifYield; h != nil {
+		h(point)
+	}
+}
